@@ -11,6 +11,7 @@ import (
 	"github.com/tendermint/tendermint/crypto/ed25519"
 	"github.com/tendermint/tendermint/crypto/merkle"
 	tmcrypto "github.com/tendermint/tendermint/proto/tendermint/crypto"
+	tmproto "github.com/tendermint/tendermint/proto/tendermint/types"
 	rpccore "github.com/tendermint/tendermint/rpc/core"
 	ctypes "github.com/tendermint/tendermint/rpc/core/types"
 	"github.com/tendermint/tendermint/types"
@@ -1241,6 +1242,52 @@ func consistentNodeFals() []fals {
 			}}
 	}
 	return []fals{mk("power", "val-power"), mk("key", "val-member")}
+}
+
+// forgedTipFals: the node forges the block of a height outright: a header of
+// its choosing, a validator set of its own (one key it holds) in the validators
+// answer, ValidatorsHash set to that set, and a commit signed by that key.  The
+// light block is fully self-consistent (LightBlock.ValidateBasic and even a
+// commit check against its OWN validator set pass); only verification from the
+// trusted state, or the comparison with the already trusted block of that
+// height, exposes it.  Applied to both answers (method "Commit,Validators").
+func forgedTipFals() []fals {
+	attacker := ed25519.GenPrivKeyFromSecret([]byte("c20-attacker"))
+	aval := func() *types.Validator { return types.NewValidator(attacker.PubKey(), 10) }
+	mk := func(name string, hdrMut func(r *rand.Rand, h *types.Header)) fals {
+		return fals{"node forges the block: " + name + ", own validator set, commit signed by its own key", "forged-block",
+			func(r *rand.Rand, cc *chainCtx, resp interface{}) bool {
+				switch v := resp.(type) {
+				case *ctypes.ResultValidators:
+					v.Validators, v.Count, v.Total = []*types.Validator{aval()}, 1, 1
+					return true
+				case *ctypes.ResultCommit:
+					vs := types.NewValidatorSet([]*types.Validator{aval()})
+					hdrMut(r, v.Header)
+					v.Header.ValidatorsHash = vs.Hash()
+					v.Header.ProposerAddress = attacker.PubKey().Address()
+					bid := types.BlockID{Hash: v.Header.Hash(), PartSetHeader: v.Commit.BlockID.PartSetHeader}
+					vote := &types.Vote{Type: tmproto.PrecommitType, Height: v.Header.Height, Round: 0, BlockID: bid,
+						Timestamp: v.Header.Time.Add(time.Second), ValidatorAddress: attacker.PubKey().Address(), ValidatorIndex: 0}
+					sig, err := attacker.Sign(types.VoteSignBytes(v.Header.ChainID, vote.ToProto()))
+					if err != nil {
+						return false
+					}
+					vote.Signature = sig
+					v.SignedHeader.Commit = types.NewCommit(v.Header.Height, 0, bid, []types.CommitSig{vote.CommitSig()})
+					return true
+				}
+				return false
+			}}
+	}
+	return []fals{
+		mk("app hash of its choosing", func(r *rand.Rand, h *types.Header) { h.AppHash = flipped(r, h.AppHash) }),
+		mk("header otherwise genuine", func(r *rand.Rand, h *types.Header) {}),
+		mk("next validators hash and data hash of its choosing", func(r *rand.Rand, h *types.Header) {
+			h.NextValidatorsHash = flipped(r, h.NextValidatorsHash)
+			h.DataHash = flipped(r, h.DataHash)
+		}),
+	}
 }
 
 // forgedValueOp: a ValueOp that is internally consistent for (key, value) in a
